@@ -36,7 +36,7 @@ def run_one(m, repo, keep=False):
         results = {}
         props = m["props"] if "props" in m else [m["prop"]]
         if ALL:
-            r = subprocess.run([os.path.join(HERE, "bin", "escalint"), "check", "-prop", "all", "-repo", dst, "-verif", HERE, "-n"],
+            r = subprocess.run([os.environ.get("ESCALINT_BIN") or os.path.join(HERE, "bin", "escalint"), "check", "-prop", "all", "-repo", dst, "-verif", HERE, "-n"],
                                capture_output=True, text=True, errors="replace", env=env)
             fired = sorted(set(l.split("property=")[1].split()[0] for l in r.stdout.splitlines() if l.startswith("VIOLATION")))
             kinds = sorted(set(l.split()[0] + ":" + l.split()[1] for l in r.stdout.splitlines() if l.startswith(("VIOLATED", "UNDECIDED", "VACUOUS", "ANCHOR-LOST"))))
@@ -45,7 +45,7 @@ def run_one(m, repo, keep=False):
             extra = [p for p in fired if p not in props]
             return (m["id"], "ok" if ok else "FAIL", "fired=%s extra=%s rules=%s" % (",".join(fired), ",".join(extra), " ".join(kinds)))
         for prop in props:
-            r = subprocess.run([os.path.join(HERE, "bin", "escalint"), "check", "-prop", prop, "-repo", dst, "-verif", HERE, "-n"],
+            r = subprocess.run([os.environ.get("ESCALINT_BIN") or os.path.join(HERE, "bin", "escalint"), "check", "-prop", prop, "-repo", dst, "-verif", HERE, "-n"],
                                capture_output=True, text=True, errors="replace", env=env)
             results[prop] = (r.returncode, r.stdout)
         expect = m.get("expect", "fire")
